@@ -258,7 +258,11 @@ def check_export(key, name, pw, fails, where, expect=None):
     for f, b in secret_octets(K['ints']):
         if b in blob:
             fails.append('%s: secret integer %s occurs in the clear in the export' % (where, f))
-    bodies = [b for t, b, _ in indep.packets(blob) if t in (5, 7)]
+    try:
+        bodies = [b for t, b, _ in indep.packets(blob) if t in (5, 7)]
+    except (AssertionError, KeyError, IndexError, ValueError) as ex:
+        fails.append('%s: the export is not a sequence of packets for the independent reader (%s %s)' % (where, type(ex).__name__, ex))
+        return blob
     if len(bodies) != len(K['ints']):
         fails.append('%s: %d secret key packets exported, expected %d' % (where, len(bodies), len(K['ints'])))
     for i, b in enumerate(bodies):
@@ -591,7 +595,14 @@ def walk_chunk(arg):
         if count is not None:
             for h in HashAlgorithm:
                 h._tuned_count = count
-        return [run_walk(s) for s in seqs]
+        out = []
+        for s in seqs:
+            try:
+                out.append(run_walk(s))
+            except Exception as ex:        # an exception escaping a walk is a failing case (with the walk as its input), not a harness crash
+                tb = traceback.extract_tb(ex.__traceback__)[-1]
+                out.append((s, len(s) - 1, ['walk raised %s: %s at %s:%d' % (type(ex).__name__, str(ex)[:100], tb.filename.split('/')[-1], tb.lineno)]))
+        return out
     finally:
         for h, v in saved.items():
             h._tuned_count = v
